@@ -89,6 +89,34 @@ def grammar_part(prog, R):
         fns_ = sorted(set(G.node_fn[x] for x in comp))
         R.ob("C01.2-PROGRESS-recursion", "+".join(short(x).split("::")[-1] for x in fns_), False, prog.body(fns_[0]).at,
              f"recursion cycle (context-sensitive call graph) without a guaranteed consumption on any of its call edges: {[(short(G.node_fn[x]), G.node_ctx[x]) for x in comp][:6]}")
+    # ---- C01.2 work per token / event / diagnostic is constant: in the cone of the text entry points no call scans a
+    # growing collection (membership test, search, removal or insertion in the middle, sort, fold over a collection):
+    # done once per event such a scan makes the parse quadratic in the number of tokens or diagnostics.  The three
+    # existing uses are reviewed; any other needs a review.
+    LINEAR = ("::contains", "::retain", "::remove", "::insert", "::dedup", "::dedup_by", "::dedup_by_key", "::sort", "::sort_by", "::sort_unstable", "::binary_search",
+              "Iterator::any", "Iterator::find", "Iterator::position", "Iterator::all", "Iterator::count", "Iterator::last", "Iterator::nth", "Iterator::max", "Iterator::min",
+              "Iterator::sum", "Iterator::find_map", "Iterator::fold", "Iterator::rposition", "::drain")
+    REVIEWED_SCANS = {
+        ("oq3_parser::event::process", "std::vec::Vec::drain"): "once per parse: the event list is drained in one pass",
+        ("oq3_parser::shortcuts::n_attached_trivias", "core::str::contains"): "on the text of one comment token",
+        ("oq3_parser::shortcuts::Builder::enter", "std::iter::Iterator::count"): "over the run of trivia tokens directly before the node",
+    }
+    pcone = prog.cone(["oq3_syntax::parsing::parse_text", "oq3_syntax::parsing::parse_text_check_lex"])
+    R.floor("functions in the cone of the text entry points", len(pcone), 150)
+    nscan = 0
+    for f_ in sorted(pcone):
+        fb_ = prog.body(f_)
+        for bi_, t_ in fb_.calls():
+            cal_ = fb_.callee_of(t_) or ""
+            if cal_.startswith("oq3_") or cal_.startswith("<oq3_") or not cal_.endswith(LINEAR):
+                continue
+            if cal_.endswith(("HashMap::insert", "HashMap::remove", "HashSet::insert", "HashSet::remove", "HashSet::contains", "HashMap::contains_key", "BTreeMap::insert")) or "hash::" in cal_ or "btree" in cal_:
+                continue
+            nscan += 1
+            why_ = REVIEWED_SCANS.get((f_, cal_))
+            R.ob("C01.2-constant-work-per-event", f"{short(f_)}->{cal_.split('::')[-2]}::{cal_.split('::')[-1]}", why_ is not None, t_["at"],
+                 f"reviewed: {why_}" if why_ else f"{short(f_)} scans a collection with {cal_.split('::')[-1]} on the path from the text entry points: if this runs per token, event or diagnostic over a list that grows with the input the work is quadratic (review and list it if the collection is bounded)")
+    R.floor("collection scans in the parse cone", nscan, 2)
     R.ob("C01.2-PROGRESS-recursion", "all-cycles-consume", not cyc, "", f"{len(G.edges)} call edges; the sub-graph of edges not preceded by a consumption on every path is acyclic")
 
     # ---- C01.3 PRE + C01.6 inventory
